@@ -61,6 +61,10 @@ func main() {
 		for _, id := range core.IDs() {
 			fmt.Println(id)
 		}
+	case "digest": // dsim digest <prop> <tier> <from> <n>: one line per run with a digest of everything the run reports
+		rc := runDigest(os.Args[2], os.Args[3], os.Args[4], os.Args[5])
+		core.RunAtExit()
+		os.Exit(rc)
 	case "gen": // dsim gen <prop> <tier> <idx>: print the trace a run would execute
 		p := core.Get(os.Args[2])
 		idx, _ := strconv.Atoi(os.Args[4])
@@ -72,6 +76,52 @@ func main() {
 	default:
 		usage()
 	}
+}
+
+// runDigest executes runs [from, from+n) of a property one after the other and prints, per run, a digest of the
+// generated trace and of everything the run reports (verdict, counters, probes, faults, state hashes). The
+// determinism self-test runs it in several fresh processes with different GOMAXPROCS and compares the output.
+// Probes that depend on CPU time (names containing "cpu") are left out: they are documented as load dependent.
+func runDigest(prop, tier, fromS, nS string) int {
+	p := core.Get(prop)
+	if p == nil {
+		fmt.Fprintln(os.Stderr, "unknown property", prop)
+		return exitInfra
+	}
+	from, _ := strconv.Atoi(fromS)
+	n, _ := strconv.Atoi(nS)
+	lim := uint64(envInt("VERIF_AS_GIB", 12)) << 30
+	_ = syscall.Setrlimit(syscall.RLIMIT_AS, &syscall.Rlimit{Cur: lim, Max: lim})
+	base := baseSeed()
+	for idx := from; idx < from+n; idx++ {
+		seed := core.Mix(base, core.HashStr(prop), uint64(idx))
+		t := p.Gen(core.NewRng(seed), tier, idx)
+		t.Property, t.Seed, t.Tier = prop, seed, tier
+		tb, _ := json.Marshal(t)
+		res := core.SafeExec(p, t)
+		sig := ""
+		if res.V != nil {
+			sig = res.V.Clause + "|" + res.V.Trigger + "|" + res.V.Locus
+		}
+		var kv []string
+		for k, v := range res.Probes {
+			if !strings.Contains(k, "cpu") {
+				kv = append(kv, fmt.Sprintf("p:%s=%d", k, v))
+			}
+		}
+		for k, v := range res.Faults {
+			kv = append(kv, fmt.Sprintf("f:%s=%d", k, v))
+		}
+		sort.Strings(kv)
+		hs := append([]uint64(nil), res.Hashes...)
+		sort.Slice(hs, func(i, j int) bool { return hs[i] < hs[j] })
+		var hh uint64
+		for _, h := range hs {
+			hh = core.Mix(hh, h)
+		}
+		fmt.Printf("%d trace=%016x sig=%q evals=%d steps=%d devops=%d hashes=%d:%016x %s\n", idx, core.HashStr(string(tb)), sig, res.Evals, res.Steps, res.DevOps, len(hs), hh, strings.Join(kv, " "))
+	}
+	return 0
 }
 
 func usage() {
